@@ -42,7 +42,17 @@ class Ctx(object):
 
 
 class History(object):
-  def __init__(self, acc, seed, monitors, steps, weights=None, flags=None, proc_kw=None, setup=None):
+  def __init__(self, acc, seed, monitors, steps, weights=None, flags=None, proc_kw=None, setup=None,
+               avoid_open_triggers=True):
+    # avoid_open_triggers: a generated bundle that takes the document into the trigger state of an
+    # open finding (DESIGN.md 3.6; invariants.open_finding_triggers: a summary table whose group-by
+    # source column holds formula errors, a trigger formula depending on a formula column that holds
+    # errors) is taken back with its own undo actions and
+    # not shown to the monitors, so that a listed defect cannot surface as alarms of the relational
+    # oracles that presuppose a fixpoint. Counted in the evidence; the finding itself is replayed
+    # by its witness on every run.
+    self.avoid_open_triggers = avoid_open_triggers
+    self.cut_short = False
     self.acc = acc
     self.seed = seed
     self.rnd = random.Random(seed)
@@ -108,6 +118,21 @@ class History(object):
             wire = json.loads(json.dumps(bundle))   # fresh objects: user actions mutate their arguments
             reply, err = self.apply(wire, 'gen')
           S1 = self.snap()
+          trig = invariants.open_finding_triggers(S1) if self.avoid_open_triggers else None
+          if trig:
+            acc.count('bundles_taken_back_open_finding_trigger')
+            for name in trig:
+              acc.count('taken_back.' + name)
+            if reply is not None:
+              self.apply([['ApplyUndoActions', json.loads(json.dumps(reply.undo))]], 'take-back')
+            S2 = self.snap()
+            if reply is None or snapshot.diff(S, S2, maxn=1):
+              # The trigger state could not be left exactly: everything later in this history would
+              # be judged against a state shaped by the listed defect. Stop here (no final unwind).
+              acc.count('histories_cut_short_open_finding_trigger')
+              self.cut_short = True
+              break
+            continue
           ctx = Ctx(step, bundle, S, S1, reply, err, getattr(self.gen, 'last_kind', None))
           acc.count('bundles')
           acc.count('bundles_ok' if err is None else 'bundles_failed')
@@ -123,8 +148,9 @@ class History(object):
             if self.proc.dead:
               break
           S = self.snap() if any(m.MUTATES for m in self.monitors) else S1
-        for m in self.monitors:
-          m.end(self)
+        if not self.cut_short:
+          for m in self.monitors:
+            m.end(self)
         for k, v in self.gen.fgen.shapes.items():
           acc.count('formula_shape.' + k, v)
       except Watchdog as e:
@@ -247,9 +273,9 @@ class UndoRedoMonitor(Monitor):
       return
     h.violation(mech, summary, detail)
 
-  def _mech(self, default, ctx, d):
+  def _mech(self, default, ctx, d, Sa=None, Sb=None):
     if self.classify:
-      return self.classify(default, ctx, d) or default
+      return self.classify(default, ctx, d, Sa, Sb) or default
     return default
 
   def after_bundle(self, h, ctx):
@@ -278,7 +304,7 @@ class UndoRedoMonitor(Monitor):
         acc.count('prestate_not_a_fixpoint')
         d = None
       if d:
-        self._viol(h, self._mech('undo_diff', ctx, d), 'state after undo differs from state before bundle %s: %s' % (
+        self._viol(h, self._mech('undo_diff', ctx, d, ctx.S0, S0u), 'state after undo differs from state before bundle %s: %s' % (
             action_kinds(ctx.bundle), d[:3]), {'bundle': ctx.bundle, 'diff': d, 'undo': r.undo[:20]})
     rr, err = h.apply([['ApplyDocActions', json.loads(json.dumps(r.stored))]], 'redo')
     if err is not None:
@@ -297,7 +323,7 @@ class UndoRedoMonitor(Monitor):
         acc.count('poststate_not_a_fixpoint')
         d = None
       if d:
-        self._viol(h, self._mech('redo_diff', ctx, d), 'state after undo+redo differs from state after bundle %s: %s' % (
+        self._viol(h, self._mech('redo_diff', ctx, d, ctx.S1, S1r), 'state after undo+redo differs from state after bundle %s: %s' % (
             action_kinds(ctx.bundle), d[:3]), {'bundle': ctx.bundle, 'diff': d, 'stored': r.stored[:20]})
     elif snapshot.diff(ctx.S1, S1r):
       self.diverged = True
@@ -436,7 +462,12 @@ class NoTraceMonitor(Monitor):
     S2 = h.snap()
     if kind == 'formula_cells':
       d2 = snapshot.diff(S0, S2)
-      if d2:
+      if d2 and reference_was_stale(h, S0, S2):
+        # The data is as before the bundle; the formula cells differ because the pre-state itself
+        # was not what a recalculation of its data gives (C05's subject, reported there): the
+        # rollback recalculated them. The no-trace comparison is void for this case (DESIGN.md 3.6).
+        h.acc.count('prestate_not_a_fixpoint')
+      elif d2:
         h.violation('trace_formula_persistent:' + how, 'formula cells changed by failed bundle %s stay changed after '
                     'Calculate: %s' % (action_kinds(bundle), d2[:3]), dict(detail, diff_after_calculate=d2[:10]))
       else:
